@@ -34,11 +34,15 @@ type tracer struct {
 	calls      int // any CALL/CALLCODE/DELEGATECALL/STATICCALL
 	steps      int
 	innerFail  int // inner frames that failed
+	// revTouched: addresses that received a zero-value transfer inside a frame
+	// that was rolled back
+	revTouched []common.Address
 }
 
 type frame struct {
-	refund uint64
-	sd     []common.Address
+	refund  uint64
+	sd      []common.Address
+	touched []common.Address // targets of zero-value transfers made in this frame
 }
 
 func newTracer() *tracer { return &tracer{} }
@@ -78,8 +82,10 @@ func (t *tracer) sync(depth int, stack *vm.Stack) {
 			p := t.frames[len(t.frames)-1]
 			p.refund += child.refund
 			p.sd = append(p.sd, child.sd...)
+			p.touched = append(p.touched, child.touched...)
 		} else {
 			t.innerFail++
+			t.revTouched = append(t.revTouched, child.touched...)
 		}
 	}
 	for len(t.frames) < depth {
@@ -112,6 +118,9 @@ func (t *tracer) CaptureState(env *vm.EVM, pc uint64, op vm.OpCode, gas, cost ui
 	case vm.SELFDESTRUCT:
 		t.suicides++
 		a := contract.Address()
+		if d := stack.Data(); len(d) >= 1 && env.StateDB.GetBalance(a).Sign() == 0 {
+			f.touched = append(f.touched, common.BigToAddress(d[len(d)-1]))
+		}
 		if !t.suicided(a) {
 			f.refund += 24000
 			f.sd = append(f.sd, a)
@@ -124,6 +133,8 @@ func (t *tracer) CaptureState(env *vm.EVM, pc uint64, op vm.OpCode, gas, cost ui
 		d := stack.Data()
 		if len(d) >= 3 && d[len(d)-3].Sign() != 0 {
 			t.valueCalls++
+		} else if len(d) >= 3 && op == vm.CALL {
+			f.touched = append(f.touched, common.BigToAddress(d[len(d)-2]))
 		}
 	case vm.DELEGATECALL, vm.STATICCALL:
 		t.calls++
@@ -139,6 +150,11 @@ func (t *tracer) CaptureFault(env *vm.EVM, pc uint64, op vm.OpCode, gas, cost ui
 
 func (t *tracer) CaptureEnd(output []byte, gasUsed uint64, d time.Duration, err error) error {
 	t.ended, t.execGas, t.err = true, gasUsed, err
+	if err != nil {
+		for _, f := range t.frames {
+			t.revTouched = append(t.revTouched, f.touched...)
+		}
+	}
 	switch {
 	case err != nil:
 		t.refund = 0
